@@ -1954,7 +1954,8 @@ impl Archive {
             log::debug!("Sector offsets: {:?}", &sector_offsets);
 
             // Read and decompress each sector
-            let mut decompressed_data = Vec::with_capacity((patch_data_size as usize).min(MAX_PREALLOC));
+            let mut decompressed_data =
+                Vec::with_capacity((patch_data_size as usize).min(MAX_PREALLOC));
 
             for i in 0..sector_count {
                 let sector_start = sector_offsets[i] as usize;
@@ -2002,8 +2003,8 @@ impl Archive {
                 );
 
                 // Decompress using standard MPQ decompression
-                let expected_size =
-                    sector_size.min((patch_data_size as usize).saturating_sub(decompressed_data.len()));
+                let expected_size = sector_size
+                    .min((patch_data_size as usize).saturating_sub(decompressed_data.len()));
                 let sector_decompressed = compression::decompress(
                     &sector_data[1..], // Skip compression method byte
                     compression_method,
@@ -2367,45 +2368,44 @@ impl Archive {
             }
 
             // Decompress sector
-            let decompressed_sector = if file_info.is_compressed()
-                && sector_size_compressed < expected_size
-            {
-                if !sector_data.is_empty() {
-                    // Check if this is IMPLODE compression (no compression type prefix)
-                    if file_info.is_implode() {
-                        // IMPLODE compression - no compression type byte prefix
-                        match compression::decompress(sector_data, 0x08, expected_size) {
-                            Ok(decompressed) => decompressed,
-                            Err(e) => {
-                                log::warn!("Failed to decompress IMPLODE sector {i}: {e}");
-                                return Err(e);
+            let decompressed_sector =
+                if file_info.is_compressed() && sector_size_compressed < expected_size {
+                    if !sector_data.is_empty() {
+                        // Check if this is IMPLODE compression (no compression type prefix)
+                        if file_info.is_implode() {
+                            // IMPLODE compression - no compression type byte prefix
+                            match compression::decompress(sector_data, 0x08, expected_size) {
+                                Ok(decompressed) => decompressed,
+                                Err(e) => {
+                                    log::warn!("Failed to decompress IMPLODE sector {i}: {e}");
+                                    return Err(e);
+                                }
+                            }
+                        } else {
+                            // COMPRESS flag - has compression type byte prefix
+                            let compression_type = sector_data[0];
+                            let compressed_data = &sector_data[1..];
+                            match compression::decompress(
+                                compressed_data,
+                                compression_type,
+                                expected_size,
+                            ) {
+                                Ok(decompressed) => decompressed,
+                                Err(e) => {
+                                    log::warn!("Failed to decompress sector {i}: {e}");
+                                    return Err(e);
+                                }
                             }
                         }
                     } else {
-                        // COMPRESS flag - has compression type byte prefix
-                        let compression_type = sector_data[0];
-                        let compressed_data = &sector_data[1..];
-                        match compression::decompress(
-                            compressed_data,
-                            compression_type,
-                            expected_size,
-                        ) {
-                            Ok(decompressed) => decompressed,
-                            Err(e) => {
-                                log::warn!("Failed to decompress sector {i}: {e}");
-                                return Err(e);
-                            }
-                        }
+                        return Err(Error::compression(format!(
+                            "Empty compressed sector data for sector {i}"
+                        )));
                     }
                 } else {
-                    return Err(Error::compression(format!(
-                        "Empty compressed sector data for sector {i}"
-                    )));
-                }
-            } else {
-                // Sector is not compressed
-                sector_data[..expected_size.min(sector_data.len())].to_vec()
-            };
+                    // Sector is not compressed
+                    sector_data[..expected_size.min(sector_data.len())].to_vec()
+                };
 
             // Validate the sector checksum if present. The builder computes ADLER32 over
             // the plain (decrypted, decompressed) sector content, like the single unit path.
